@@ -21,7 +21,7 @@ import (
 func init() {
 	register(&explore.Prop{
 		ID: "C19", Level: levelFE, Explorer: "E3 environment-answer enumerator",
-		Rule: "file-backed segments (small mixed; 257-doc three-block; the small one with a 40 KiB FST of 2000 more terms; thorough also 1025-doc two-doc-value-chunk) whose segment.Data reads go through a fault-injecting io.ReaderAt; warm-up prefix = every sequence of <=1 (quick) / <=2 (thorough) read operations on the small segment, one fewer on each larger one, drawn from a 19-operation menu (incl. three operations that step a long-lived postings / dictionary iterator) (decides which caches are warm); then for the next operation X the storage fails at EVERY read index of X (on the 40 KiB-FST segment: the first and the last 32 reads of an operation with more than 64), persistently (every later read fails) or transiently (only that read); then EVERY follow-up operation of the menu runs, with the objects X left behind and with fresh objects; " +
+		Rule: "file-backed segments (small mixed; 257-doc three-block; the small one with a 190 KiB FST of 10000 more terms; thorough also 1025-doc two-doc-value-chunk) whose segment.Data reads go through a fault-injecting io.ReaderAt; warm-up prefix = every sequence of <=1 (quick) / <=2 (thorough) read operations on the small segment, one fewer on each larger one, drawn from a 19-operation menu (incl. three operations that step a long-lived postings / dictionary iterator) (decides which caches are warm); then for the next operation X the storage fails at EVERY read index of X (on the 190 KiB-FST segment: the first and the last 32 reads of an operation with more than 64), persistently (every later read fails) or transiently (only that read); then EVERY follow-up operation of the menu runs, with the objects X left behind and with fresh objects; " +
 			"oracle: X returns an error (what it delivered before is a prefix of the correct result), or an empty result, or the complete correct result; after X and after every follow-up the FST-cache mutex is free (a held mutex would block every later lookup), nothing panics; after a transient fault, follow-ups through fresh objects return the correct result or an error; distinct = (segment, prefix, X, read index, fault kind); non-trivial = the injected fault was actually hit",
 		Assumptions: []string{"the injector is installed by reflection into the struct of bluge_segment_api v0.2.0 (pinned in go.sum); harness only, ice untouched", "fail model: ReadAt returns (0, error)", "blocking is detected by the invariant 'mutex free between calls' (VerifMutexFree), not by timeouts; the 300 s per-case watchdog is a backstop"},
 		Budget:      qBudget, Run: runC19,
@@ -411,8 +411,8 @@ func c19Segments(thorough bool) (names []string, images [][]byte, err error) {
 	if err := mk("257docs", blocks, 1025); err != nil {
 		return nil, nil, err
 	}
-	// the small segment again, with 2000 high-entropy 16-character terms more in field a of one
-	// document: the field's FST takes some 40 KiB (anything read in fixed-size pieces, or read ahead
+	// the small segment again, with 10000 high-entropy 16-character terms more in field a of one
+	// document: the field's FST takes some 190 KiB (anything read in fixed-size pieces, or read ahead
 	// up to a limit, behaves differently here), and its dictionary has thousands of entries
 	{
 		bd := []model.Doc{gen.MixDoc(2, "f", 0), gen.MixDoc(2, "f", 1), gen.MixDoc(2, "f", 2), gen.MixDoc(2, "f", 3), gen.MixDoc(2, "f", 4), gen.MixDoc(2, "f", 5)}
@@ -420,7 +420,7 @@ func c19Segments(thorough bool) (names []string, images [][]byte, err error) {
 		bd[1] = append(bd[1], model.Field{N: "b", Len: 1, Terms: []model.Term{{T: "t1", Freq: 1}}, DV: true})
 		var ts []model.Term
 		x := uint32(19)
-		for k := 0; k < 2000; k++ {
+		for k := 0; k < 10000; k++ {
 			t := make([]byte, 16)
 			for i := range t {
 				x = x*1664525 + 1013904223
